@@ -296,6 +296,27 @@ Definition run_phase (failF : list fkey) (failB : list bkey) (pending : list wri
 
 Record config := Config { c_npips : list N; c_reset : bool }.
 
+(* the four dataplane phases of apply(); result: dataplane afterwards and "some write failed" *)
+Definition run_phases (failF : list fkey) (failB : list bkey) (dfe : femap) (dbe : bemap) (d : dp) (tr : list write)
+  : option (dp * bool) :=
+  let fin (r : dp * bool) (rest : list write) := match rest with [] => Some r | _ => None end in
+  match run_phase failF failB (phase_del_fe dfe (fst d)) d tr with
+  | None => None
+  | Some (d2, true, rest) => fin (d2, true) rest
+  | Some (d2, false, rest) =>
+  match run_phase failF failB (phase_set_be dbe (snd d2)) d2 rest with
+  | None => None
+  | Some (d3, true, rest) => fin (d3, true) rest
+  | Some (d3, false, rest) =>
+  match run_phase failF failB (phase_set_fe dfe (fst d3)) d3 rest with
+  | None => None
+  | Some (d5, true, rest) => fin (d5, true) rest
+  | Some (d5, false, rest) =>
+  match run_phase failF failB (phase_del_be dbe (snd d5)) d5 rest with
+  | None => None
+  | Some (d6, failed, rest) => fin (d6, failed) rest
+  end end end end.
+
 (* Syncer.Apply.  Result: new Syncer state, new dataplane, "Apply returned an error". *)
 Definition exec_apply (cfg : config) (sy : syncer) (d : dp) (st : state) (v : visit)
            (failF : list fkey) (failB : list bkey) (tr : list write)
@@ -305,26 +326,41 @@ Definition exec_apply (cfg : config) (sy : syncer) (d : dp) (st : state) (v : vi
   match visit_all (sy_prev sy0) (sy_next sy0) st v with
   | None => None
   | Some (next, us) =>
-      let dfe := desired_fe (c_npips cfg) us in
-      let dbe := desired_be us in
       let sy_fail := SY next (if sy_synced sy then new_prev us else sy_prev sy0) (sy_synced sy) in
       let sy_ok := SY next (new_prev us) true in
-      let fin (r : dp * bool) (rest : list write) :=
-          match rest with [] => Some (if snd r then sy_fail else sy_ok, fst r, snd r) | _ => None end in
-      match run_phase failF failB (phase_del_fe dfe (fst d)) d tr with
+      match run_phases failF failB (desired_fe (c_npips cfg) us) (desired_be us) d tr with
       | None => None
-      | Some (d2, true, rest) => fin (d2, true) rest
-      | Some (d2, false, rest) =>
-      match run_phase failF failB (phase_set_be dbe (snd d2)) d2 rest with
+      | Some (d', err) => Some (if err then sy_fail else sy_ok, d', err)
+      end
+  end.
+
+(* ------------------------------------------------------------------ histories *)
+(* all dataplane states passed through while executing a write sequence (one per single write) *)
+Fixpoint states_after (d : dp) (ws : list write) : list dp :=
+  match ws with
+  | [] => []
+  | w :: t => let d' := do_write d w in d' :: states_after d' t
+  end.
+
+(* a history: applies (state handed to Apply, Go map iteration order, failing keys, schedule of the single
+   writes) and restarts of Felix (a new Syncer over the same maps) *)
+Inductive mop :=
+| MApply (st : state) (v : visit) (failF : list fkey) (failB : list bkey) (tr : list write)
+| MRestart.
+
+(* result: every dataplane state passed through, the final Syncer state and dataplane; None when a visit order or
+   schedule is not one the code can produce *)
+Fixpoint run_history (cfg : config) (sy : syncer) (d : dp) (ops : list mop) : option (list dp * syncer * dp) :=
+  match ops with
+  | [] => Some ([], sy, d)
+  | MRestart :: t => run_history cfg new_syncer d t
+  | MApply st v fF fB tr :: t =>
+      match exec_apply cfg sy d st v fF fB tr with
       | None => None
-      | Some (d3, true, rest) => fin (d3, true) rest
-      | Some (d3, false, rest) =>
-      match run_phase failF failB (phase_set_fe dfe (fst d3)) d3 rest with
-      | None => None
-      | Some (d5, true, rest) => fin (d5, true) rest
-      | Some (d5, false, rest) =>
-      match run_phase failF failB (phase_del_be dbe (snd d5)) d5 rest with
-      | None => None
-      | Some (d6, failed, rest) => fin (d6, failed) rest
-      end end end end
+      | Some (sy', d', _) =>
+          match run_history cfg sy' d' t with
+          | None => None
+          | Some (l, sy'', d'') => Some (states_after d tr ++ l, sy'', d'')
+          end
+      end
   end.
